@@ -83,7 +83,7 @@ def run_shard(tier, seed, idx, n, res, tmp):
     from stone.cli_helpers import parse_route_attr_filter
     b = budget(tier)
     # (1) expressions x all truth assignments, through the real parser/evaluator
-    for ei in range(idx, b['exprs'], n):
+    for ei in common.case_range(idx, b['exprs'], n, res):
         rnd = random.Random(common.case_seed(PROPERTY, seed, ei, 'expr'))
         k = rnd.randint(1, 6)
         names = ['attr_%d' % i for i in range(k)]
@@ -134,7 +134,7 @@ def run_shard(tier, seed, idx, n, res, tmp):
         if ei < n:
             res.sample({'expr': text, 'atoms': len(ats), 'assignments': len(combos)}, cap=3)
     # (2)+(3) through the command line
-    for ci in range(idx, b['specs'], n):
+    for ci in common.case_range(idx, b['specs'], n, res):
         cs = common.case_seed(PROPERTY, seed, ci)
         rnd = random.Random(cs)
         m = gm.generate(cs, profile())
